@@ -77,6 +77,10 @@ func (p *HandlerFirstConnect) handleSource(ctx context.Context, msg i.MiningMess
 
 	default:
 		p.proxy.logWarnf("unknown handshake message from source: %s", string(msg.Serialize()))
+		if p.proxy.dest == nil {
+			// there is no destination yet to pass it to (it arrived before configure / subscribe)
+			return nil, lib.WrapError(ErrHandshakeSource, fmt.Errorf("unexpected message before subscribe: %s", string(msg.Serialize())))
+		}
 		// todo: maybe just return message, so pipe will write it
 		return nil, p.proxy.dest.Write(ctx, msgTyped)
 	}
@@ -140,6 +144,11 @@ func (p *HandlerFirstConnect) getPoolDest(contractID string) (*url.URL, error) {
 // message is sent to the miner before receiving the "configure" result.
 
 func (p *HandlerFirstConnect) onMiningConfigure(ctx context.Context, msgTyped *m.MiningConfigure) error {
+	if p.proxy.dest != nil {
+		// the destination is chosen by the first configure (or subscribe): a second one cannot change it
+		return lib.WrapError(ErrHandshakeSource, fmt.Errorf("MiningConfigure received after the destination was connected"))
+	}
+
 	p.proxy.source.SetVersionRolling(msgTyped.GetVersionRolling())
 
 	var destURL *url.URL
